@@ -203,17 +203,18 @@ impl<'a, 'b> G<'a, 'b> {
             }
             // declaration with `<--` initialiser (top level only: a declaration in a loop is not Circom)
             4 if in_loop.is_none() => {
-                let s = self.fresh("d");
+                // `signal d1 <-- e1, d2 <-- e2;` — one to three symbols share the statement's extent
                 let id = self.ids.next();
-                let rhs = self.rhs(2);
-                self.expected.push(Expected { anchor: id, signal: Some(s.clone()), access: String::new() });
-                self.assigned.push(s.clone());
-                vec![Stmt::Decl {
-                    id,
-                    kind: DeclKind::Signal(SigKind::Intermediate, vec![]),
-                    syms: vec![DeclSym { id: self.ids.next(), sub_id: self.ids.next(), name: s, dims: vec![], init: Some(rhs) }],
-                    init_op: AssignOp::Signal,
-                }]
+                let n = 1 + self.t.below(3);
+                let mut syms = Vec::new();
+                for _ in 0..n {
+                    let s = self.fresh("d");
+                    let rhs = self.rhs(2);
+                    self.expected.push(Expected { anchor: id, signal: Some(s.clone()), access: String::new() });
+                    self.assigned.push(s.clone());
+                    syms.push(DeclSym { id: self.ids.next(), sub_id: self.ids.next(), name: s, dims: vec![], init: Some(rhs) });
+                }
+                vec![Stmt::Decl { id, kind: DeclKind::Signal(SigKind::Intermediate, vec![]), syms, init_op: AssignOp::Signal }]
             }
             // component input
             5 if in_loop.is_none() => {
@@ -251,7 +252,9 @@ impl<'a, 'b> G<'a, 'b> {
                 let rhs = Expr::Tuple { id: self.ids.next(), elems: vec![e1, e2, e3] };
                 self.assigned.push(s1);
                 self.assigned.push(s2);
-                vec![Stmt::Assign { id: self.ids.next(), lhs, op: AssignOp::Signal, rhs, reversed: false }]
+                // `(e1, e2, e3) --> (s1, _, s2)` as well
+                let reversed = self.t.chance(100);
+                vec![Stmt::Assign { id: self.ids.next(), lhs, op: AssignOp::Signal, rhs, reversed }]
             }
             // tuple declaration form
             7 if in_loop.is_none() => {
